@@ -7,8 +7,10 @@ import json
 import verif
 import corcommon as cc
 import outcommon as oc
+from concurrent.futures import ThreadPoolExecutor
 
-SAFE = ["C06_OwnReplyOnly", "C06_AtMostOneReply", "C06_OutcomeConsistent", "C06_UnclaimedToHandler", "C06_TableClean"]
+SAFE = ["C06_OwnReplyOnly", "C06_AtMostOneReply", "C06_OutcomeConsistent", "C06_UnclaimedToHandler", "C06_TableClean",
+        "C06_WaitedForToCaller", "C06_HeldUntilClosed"]
 
 
 def run(ctx):
@@ -22,26 +24,62 @@ def run(ctx):
         part = itercommon.run_part(ctx)
         ctx.write_evidence("model_checking", {"replayed": ctx.replay, "iterators_and_commands": part})
         return
-    mc = ctx.model_check("MCCorrelate", cc.MC_SAFE % dict(reqs='{"i1", "m1"}' if quick else '{"i1", "i2", "p1"}',
-                                                         kind="Kind2" if quick else "Kind3", maxpeer=2), SAFE, timeout=2400)
+    if ctx.replay and json.load(open(ctx.replay))["case"].get("family") == "request":
+        import reqcommon
+        part = reqcommon.run_part(ctx)
+        ctx.write_evidence("model_checking", {"replayed": ctx.replay, "request_helpers": part})
+        return
+    # pipeline A runs beside the driver (TLC runs and driver processes take machine-wide slots)
+    ex = ThreadPoolExecutor(max_workers=5)
+    f_mc = ex.submit(ctx.model_check, "MCCorrelate", cc.mc_safe('{"i1", "m1"}' if quick else '{"i1", "i2", "p1"}', "Kind2" if quick else "Kind3", 2),
+                     SAFE, workers=6, timeout=2400)
+    f_mc2 = None
     if not quick:
         # measured: 3 requesters with 2 peer items = 6.5 M distinct states in 90 s; with 3 peer items it did not
         # finish in 40 min, so the third peer item is explored with two requesters
-        mc2 = ctx.model_check("MCCorrelate", cc.MC_SAFE % dict(reqs='{"i1", "m1"}', kind="Kind2", maxpeer=3), SAFE, name="MCCorrelate_peer3", timeout=2400)
-        mc.distinct += mc2.distinct
-        mc.generated += mc2.generated
-    lv1 = ctx.model_check("MCCorrelate", cc.MC_LIVE % dict(spec="FairSpec", props="PROPERTY C06_ReqsTerminate\nPROPERTY C06_ServeNeverStalls"),
-                          ["C06_ReqsTerminate", "C06_ServeNeverStalls"], name="MCCorrelate_live", timeout=1200)
-    lv2 = ctx.model_check("MCCorrelate", cc.MC_LIVE % dict(spec="FairSpecNoCancel", props="PROPERTY C06_ServeNeverStalls"),
-                          ["C06_ServeNeverStalls (no cancellation assumed)"], name="MCCorrelate_live2", timeout=1200)
-    # non-vacuity of the liveness check: with the stall deviation TLC must find the lasso
-    bad = ctx.tlc("MCCorrelate", (cc.MC_LIVE % dict(spec="FairSpecNoCancel", props="PROPERTY C06_ServeNeverStalls")).replace("Dev = {}", 'Dev = {"StallOnFailedSender"}'),
-                  name="MCCorrelate_dev", timeout=600)
-    if bad.rc == 0:
-        raise verif.Undecided("liveness check is vacuous: the stall deviation is not detected")
+        f_mc2 = ex.submit(ctx.model_check, "MCCorrelate", cc.mc_safe('{"i1", "m1"}', "Kind2", 3), SAFE, name="MCCorrelate_peer3", workers=6, timeout=2400)
+    # the session-kind dimension: every kind of session x every way its peer qualifies a stanza
+    f_kinds = ex.submit(ctx.model_check, "MCCorrelate", cc.mc_safe('{"i1"}' if quick else '{"i1", "m1"}', "Kind1" if quick else "Kind2", 2, cc.ALL_KINDS, cc.ALL_QUALS),
+                        SAFE + ["every session kind x qualification"], name="MCCorrelate_kinds", workers=4, timeout=2400)
+    f_lv1 = ex.submit(ctx.model_check, "MCCorrelate", cc.MC_LIVE % dict(spec="FairSpec", props="PROPERTY C06_ReqsTerminate\nPROPERTY C06_ServeNeverStalls"),
+                      ["C06_ReqsTerminate", "C06_ServeNeverStalls"], name="MCCorrelate_live", workers=2, timeout=1200)
+    f_lv2 = ex.submit(ctx.model_check, "MCCorrelate", cc.MC_LIVE % dict(spec="FairSpecNoCancel", props="PROPERTY C06_ServeNeverStalls"),
+                      ["C06_ServeNeverStalls (no cancellation assumed)"], name="MCCorrelate_live2", workers=2, timeout=1200)
+    # non-vacuity: each code-like deviation must be rejected by the property it is meant for
+    f_bad = ex.submit(ctx.tlc, "MCCorrelate", (cc.MC_LIVE % dict(spec="FairSpecNoCancel", props="PROPERTY C06_ServeNeverStalls")).replace("Dev = {}", 'Dev = {"StallOnFailedSender"}'),
+                      name="MCCorrelate_dev", workers=2, timeout=600)
+    kcfg = lambda skinds, dev: cc.mc_safe('{"i1"}', "Kind1", 2, skinds, cc.ALL_QUALS, dev)
+    f_devns = ex.submit(ctx.tlc, "MCCorrelate", kcfg(cc.ALL_KINDS, '{"LookupClientServerOnly"}'), name="MCCorrelate_devns", workers=2, timeout=600)
+    f_devns0 = ex.submit(ctx.tlc, "MCCorrelate", kcfg('{"c2s", "c2s-recv", "s2s", "ws"}', '{"LookupClientServerOnly"}'), name="MCCorrelate_devns0", workers=2, timeout=600)
+    f_devres = ex.submit(ctx.tlc, "MCCorrelate", kcfg(cc.ALL_KINDS, '{"ResumeWhenCtxDone"}'), name="MCCorrelate_devres", workers=2, timeout=600)
+    f_devdrop = ex.submit(ctx.tlc, "MCCorrelate", kcfg('{"c2s"}', '{"DropReplyAfterLookup"}'), name="MCCorrelate_devdrop", workers=2, timeout=600)
+
+    def design_checks():
+        mc = f_mc.result()
+        if f_mc2:
+            mc2 = f_mc2.result()
+            mc.distinct += mc2.distinct
+            mc.generated += mc2.generated
+        mck, lv1, lv2 = f_kinds.result(), f_lv1.result(), f_lv2.result()
+        if f_bad.result().rc == 0:
+            raise verif.Undecided("liveness check is vacuous: the stall deviation is not detected")
+        caught = {}
+        for dev, f, prop in (("LookupClientServerOnly", f_devns, "C06_WaitedForToCaller"), ("ResumeWhenCtxDone", f_devres, "C06_HeldUntilClosed"),
+                             ("DropReplyAfterLookup", f_devdrop, "C06_UnclaimedToHandler")):
+            r = f.result()
+            if prop not in r.violated:
+                raise verif.Undecided("design check is vacuous: deviation %s is not rejected by %s:\n%s" % (dev, prop, r.out[-1500:]))
+            caught[dev] = prop
+        r0 = f_devns0.result()
+        if not r0.ok or not r0.finished:
+            raise verif.Undecided("deviation LookupClientServerOnly is expected to be invisible without the component kind (that is why the kind is a dimension):\n" + r0.out[-1500:])
+        ctx.log("deviations rejected: %s; LookupClientServerOnly is invisible on c2s / s2s / WebSocket sessions (%d states)" % (caught, r0.distinct))
+        return mc, mck, lv1, lv2, caught
     if ctx.replay:
         case = json.load(open(ctx.replay))["case"]
-        files, summ = cc.explore(ctx, [case["scenario"]], maxpre=3, maxruns=3000)
+        sc = dict(case["scenario"])
+        sc.pop("maxruns", None)       # the quick tier's cap per scenario does not apply to a replay
+        files, summ = cc.explore(ctx, [sc], maxpre=3, maxruns=3000)
     else:
         scen = cc.scenarios(ctx.tier)
         files, summ = cc.explore(ctx, scen, maxpre=1 if quick else 2, maxruns=250 if quick else 4000)
@@ -50,19 +88,29 @@ def run(ctx):
     ctx.log("explored %d schedules (%d distinct traces, %d events); TLC validated them in %.1fs: %d rejected" % (
         summ["evaluations"], summ["traces"], summ["events"], r.wall, len(rej)))
     trs = verif.split_traces(verif.read_ndjson(tr)) if rej else {}
-    for t, hw in sorted(rej.items())[:40]:
+    # diagnosis in words where the rejected event allows it (the verdict is TLC's); those are reported first
+    diag = {}
+    for t, hw in rej.items():
         ev = [e for e in trs[t] if e["_line"] == hw]
-        what = "schedule of real correlated requests is not a behaviour of Correlate.tla"
-        if ev and ev[0].get("ev") == "stuck":
-            what = "permanent stall: every goroutine blocked (%s)" % ev[0].get("blocked")
+        diag[t] = (cc.describe(ev[0] if ev else None, trs[t]), ev)
+    for t, hw in sorted(rej.items(), key=lambda x: ("is not a behaviour" in diag[x[0]][0], x[0]))[:40]:
+        what, ev = diag[t]
         ctx.violation("%s: %s rejected at %s" % (what, json.dumps(meta[t])[:300], json.dumps(ev[0] if ev else None)[:200]),
                       {"family": "correlate", "scenario": meta[t]["scenario"], "choices": meta[t]["choices"], "trace": trs[t],
                        "rejected_line": hw, "rejected_event": ev[0] if ev else None})
     nself = selftest(ctx, tr) if not ctx.replay and not rej else 0
+    kinds = {}
+    for t, m in meta.items():
+        k = "%s/%s" % (m["scenario"].get("skind") or "c2s", m["scenario"].get("qual") or "default")
+        kinds[k] = kinds.get(k, 0) + 1
     # the extension helpers' own rendezvous (delivery receipts, MUC join/leave): their families' specs
     # and drivers, reported under this property
     parts = {}
     if not ctx.replay:
+        # growth family XREQ: the one-shot request/response helpers (Request.tla; its rules R3 / R5 / R6 are instances of
+        # this property) - runs beside the other parts
+        import reqcommon
+        reqf = ThreadPoolExecutor(max_workers=1).submit(reqcommon.run_part, ctx)
         import muccommon
         parts.update(muccommon.run_c06_receipts_part(ctx))
         parts.update(muccommon.run_c06_muc_part(ctx))
@@ -77,15 +125,21 @@ def run(ctx):
         # time - their release rules (Iter.tla, Commands.tla) decide whether the serve loop resumes
         import itercommon
         parts["iterators_and_commands"] = itercommon.run_part(ctx)
+        parts["request_helpers"] = reqf.result()
+    # the core's design checks ran beside everything above
+    mc, mck, lv1, lv2, caught = design_checks()
     ctx.write_evidence("model_checking", {
-        "states": mc.distinct, "transitions": mc.generated,
+        "states": mc.distinct + mck.distinct, "transitions": mc.generated + mck.generated,
+        "session_kind_design_check_states": mck.distinct,
         "liveness_states": lv1.distinct + lv2.distinct,
+        "deviations_rejected": caught,
+        "traces_per_session_kind": kinds,
         "traces_validated_against_impl": summ["traces"], "schedules_run": summ["evaluations"],
         "trace_events": summ["events"], "trace_states": r.distinct, "rejected": len(rej),
         "binding_selftest_mutants_rejected": nself,
         "extension_helpers": parts,
         "samples": summ["samples"][:2],
-        "rule": "scenarios = 1-3 concurrent callers (SendIQ, SendIQElement, EncodeIQElement, UnmarshalIQ, SendMessage, SendPresence) on a served session, peer scripts with own / duplicate / unknown-id / wrong-kind / non-response stanzas, scheduler-owned cancellations, optional concurrent Close (failed sends); schedules = depth-first enumeration at gate granularity with a pre-emption bound, capped per scenario; a trace is distinct if its event sequence differs",
+        "rule": "scenarios = 1-3 concurrent callers (SendIQ, SendIQElement, EncodeIQElement, UnmarshalIQ, SendMessage, SendPresence) on a served session, peer scripts with own / duplicate / unknown-id / wrong-kind / non-response stanzas, scheduler-owned cancellations, optional concurrent Close (failed sends), a caller that does something else between obtaining the response and closing it (context ends / next stanza arrives while the response is held); session kind dimension: the straight-line request-reply / late reply / unknown id / tracked message + presence / held response scenarios on every kind of session (c2s initiated and received, s2s, WebSocket via websocket.NewSession, XEP-0114 component via component.NewSession against a scripted component server) with the peer's stanzas unqualified within the stream's default namespace or declaring the kind's stanza namespace (jabber:client, jabber:server, jabber:component:accept); the full schedule exploration stays on the initiated c2s session; schedules = depth-first enumeration at gate granularity with a pre-emption bound, capped per scenario; a trace is distinct if its event sequence differs",
     }, assumptions=["gate granularity (verifYield hooks at lookup/hand-off/wait, transport reads/writes, Go blocking primitives)",
                     "callers close the response they obtain (the property's premise)"])
 
